@@ -48,6 +48,7 @@ type vfCase struct {
 
 // a violation found by the engine; Owner is the property the broken assertion belongs to
 type vfViol struct {
+	Also  string // a second property whose sentence also justifies the assertion
 	Owner string
 	Sig   string
 	Msg   string
@@ -110,6 +111,13 @@ type vfTokInfo struct {
 	issued, lag            int // client calls at issue time; client calls that passed before the insert was applied
 }
 
+type vfBlockedDel struct {
+	key    uint64
+	done   chan struct{}
+	isWait bool // a Wait() call whose marker could not be enqueued yet
+	wid    int
+}
+
 type vfWaiter struct {
 	done    chan struct{}
 	release bool // the model says its marker has been consumed
@@ -130,22 +138,24 @@ type vfSM struct {
 	progOps     []vfOp
 
 	// model
-	fifo      []vfPend
-	resident  map[uint64]vfEnt
-	acct      map[uint64]int64
-	used      int64
-	maxCost   int64
-	toks      map[uint64]*vfTokInfo
-	nextTok   uint64
-	exempt    bool // an applied update/duplicate raised an accounted cost (C03 carve-out)
-	waiters   map[int]*vfWaiter
-	nextWid   int
-	replaying bool            // a read of the mid-sweep program is being replayed on the model
-	calls     int             // client calls so far
-	t0        time.Time       // creation time of the cache (first tick at t0+period)
-	lastTick  time.Time       // when a pending tick was last consumed or discarded
-	tainted   map[uint64]bool // keys with a duplicate buffered insert (outside C06's premise)
-	deleted   map[uint64]bool // C05: Del(k) returned and writes drained since; no Set issued yet
+	fifo       []vfPend
+	resident   map[uint64]vfEnt
+	acct       map[uint64]int64
+	used       int64
+	maxCost    int64
+	toks       map[uint64]*vfTokInfo
+	nextTok    uint64
+	exempt     bool // an applied update/duplicate raised an accounted cost (C03 carve-out)
+	waiters    map[int]*vfWaiter
+	nextWid    int
+	blockedDel *vfBlockedDel   // a Del call blocked on the full write buffer (its goroutine is parked)
+	replaying  bool            // a read of the mid-sweep program is being replayed on the model
+	calls      int             // client calls so far
+	t0         time.Time       // creation time of the cache (first tick at t0+period)
+	lastTick   time.Time       // when a pending tick was last consumed or discarded
+	everTTL    map[uint64]bool // keys that were ever written with a TTL
+	tainted    map[uint64]bool // keys with a duplicate buffered insert (outside C06's premise)
+	deleted    map[uint64]bool // C05: Del(k) returned and writes drained since; no Set issued yet
 
 	// metric model (since creation / last Clear)
 	mGets, mHits, mMisses    uint64
@@ -166,7 +176,7 @@ type vfSMStats struct {
 	lateHit                                                     int // Get hit on a value whose insert was buffered across >=1 other client call
 	waitWith2                                                   int
 	nearExpiryObs, ttlReplaced                                  int
-	delWithBufferedInsert                                       int
+	delWithBufferedInsert, delOnFullBuffer, waitOnFullBuffer    int
 	drainedNonEmpty                                             int
 	sweepMixed                                                  int // sweep removed >=1 while another entry of a swept bucket was re-written / late
 	costLowering, costRaising                                   int
@@ -182,7 +192,7 @@ func vfNewSM(cfg vfCfg) (*vfSM, func()) {
 	setBufSize, bucketDurationSecs = cfg.SetBufSize, cfg.BucketSecs
 	restore := func() { setBufSize, bucketDurationSecs = oldBuf, oldBucket }
 	s := &vfSM{cfg: cfg, resident: map[uint64]vfEnt{}, acct: map[uint64]int64{}, maxCost: cfg.MaxCost,
-		toks: map[uint64]*vfTokInfo{}, nextTok: 1, waiters: map[int]*vfWaiter{}, tainted: map[uint64]bool{}, deleted: map[uint64]bool{}}
+		toks: map[uint64]*vfTokInfo{}, nextTok: 1, waiters: map[int]*vfWaiter{}, everTTL: map[uint64]bool{}, tainted: map[uint64]bool{}, deleted: map[uint64]bool{}}
 	conf := &Config[uint64, uint64]{
 		NumCounters: cfg.NumCounters, MaxCost: cfg.MaxCost, BufferItems: cfg.BufferItems, Metrics: cfg.Metrics,
 		IgnoreInternalCost: cfg.IgnoreIntern, TtlTickerDurationInSec: cfg.TickerSecs,
@@ -301,6 +311,11 @@ func (s *vfSM) drainBuf() []*Item[uint64] {
 // stepOneReal lets the applier consume exactly the next buffered item.
 func (s *vfSM) stepOneReal() {
 	items := s.drainBuf()
+	if s.blockedDel != nil {
+		// a Del is blocked on the full buffer: its tombstone enters at the tail as soon as a slot is free
+		synctest.Wait()
+		items = append(items, s.drainBuf()...)
+	}
 	s.drainTick()
 	if len(items) == 0 {
 		return
